@@ -703,7 +703,107 @@ def _as_load(t: ast.AST) -> ast.AST:
     return t
 
 
+def _inline_iterables(fn: ast.FunctionDef) -> ast.FunctionDef:
+    """`xs = range(..)` / `count(..)` / `zip(..)` / `enumerate(..)` bound once and used once (as what a loop or a comprehension iterates
+    over, or as an argument of zip / enumerate): written where it is used, when none of the names it mentions is bound anywhere else."""
+    binds: dict = {}
+    uses: dict = {}
+    for n in ast.walk(fn):
+        if isinstance(n, ast.Name):
+            (binds if isinstance(n.ctx, (ast.Store, ast.Del)) else uses).setdefault(n.id, []).append(n)
+    params = {a.arg for a in fn.args.posonlyargs + fn.args.args + fn.args.kwonlyargs}
+    cands: dict = {}
+    for n in ast.walk(fn):
+        if isinstance(n, ast.Assign) and len(n.targets) == 1 and isinstance(n.targets[0], ast.Name) and isinstance(n.value, ast.Call) \
+                and isinstance(n.value.func, ast.Name) and n.value.func.id in ("range", "count", "zip", "enumerate", "reversed") \
+                and len(binds.get(n.targets[0].id, [])) == 1 and len(uses.get(n.targets[0].id, [])) == 1 and n.targets[0].id not in params:
+            free = {x.id for x in ast.walk(n.value) if isinstance(x, ast.Name)} - {n.value.func.id}
+            if all(len(binds.get(v, [])) <= (0 if v in params else 1) for v in free):
+                cands[n.targets[0].id] = n
+    if not cands:
+        return fn
+    use_ok: set = set()
+    for n in ast.walk(fn):
+        its = []
+        if isinstance(n, ast.For):
+            its.append(n.iter)
+        elif isinstance(n, ast.comprehension):
+            its.append(n.iter)
+        for it in its:
+            stack = [it]
+            while stack:
+                x = stack.pop()
+                if isinstance(x, ast.Name) and x.id in cands:
+                    use_ok.add(x.id)
+                elif isinstance(x, ast.Call) and isinstance(x.func, ast.Name) and x.func.id in ("zip", "enumerate", "reversed", "list"):
+                    stack.extend(x.args)
+    cands = {k: v for k, v in cands.items() if k in use_ok}
+    if not cands:
+        return fn
+
+    class T(ast.NodeTransformer):
+        def visit_Assign(self, n: ast.Assign):
+            if any(n is c for c in cands.values()):
+                return None
+            return self.generic_visit(n)
+
+        def visit_Name(self, n: ast.Name):
+            if isinstance(n.ctx, ast.Load) and n.id in cands:
+                return copy.deepcopy(cands[n.id].value)
+            return n
+    new = T().visit(copy.deepcopy(fn))
+    # the candidates were identified on `fn`; on the copy they are matched by target name
+    return new
+
+
+class _ZipCount(ast.NodeTransformer):
+    """`for a, x in zip(count(START, STEP), XS): BODY`  ->  `for _zi, x in enumerate(XS): BODY[a := START + STEP * _zi]`"""
+
+    def __init__(self) -> None:
+        self.k = 0
+
+    def visit_For(self, node: ast.For):
+        self.generic_visit(node)
+        it = node.iter
+        if not (isinstance(it, ast.Call) and isinstance(it.func, ast.Name) and it.func.id == "zip" and len(it.args) == 2 and not it.keywords
+                and isinstance(node.target, ast.Tuple) and len(node.target.elts) == 2 and isinstance(node.target.elts[0], ast.Name)):
+            return node
+        c, xs = it.args
+        if not (isinstance(c, ast.Call) and ((isinstance(c.func, ast.Name) and c.func.id == "count") or
+                                             (isinstance(c.func, ast.Attribute) and c.func.attr == "count" and isinstance(c.func.value, ast.Name)
+                                              and c.func.value.id == "itertools")) and 0 <= len(c.args) <= 2 and not c.keywords):
+            return node
+        a = node.target.elts[0].id
+        if any(isinstance(n, ast.Name) and n.id == a and isinstance(n.ctx, (ast.Store, ast.Del)) for st in node.body for n in ast.walk(st)):
+            return node
+        start = c.args[0] if c.args else ast.Constant(value=0)
+        step = c.args[1] if len(c.args) > 1 else ast.Constant(value=1)
+        free = {x.id for x in ast.walk(start) if isinstance(x, ast.Name)} | {x.id for x in ast.walk(step) if isinstance(x, ast.Name)}
+        if any(isinstance(n, ast.Name) and n.id in free and isinstance(n.ctx, (ast.Store, ast.Del)) for st in node.body for n in ast.walk(st)):
+            return node
+        self.k += 1
+        i = f"_zi{self.k}"
+        prod: ast.AST = ast.Name(id=i, ctx=ast.Load())
+        if not (isinstance(step, ast.Constant) and step.value == 1):
+            prod = ast.BinOp(left=copy.deepcopy(step), op=ast.Mult(), right=prod)
+        addr: ast.AST = prod if (isinstance(start, ast.Constant) and start.value == 0) else ast.BinOp(left=copy.deepcopy(start), op=ast.Add(), right=prod)
+
+        class R(ast.NodeTransformer):
+            def visit_Name(self, n: ast.Name):
+                if n.id == a and isinstance(n.ctx, ast.Load):
+                    return ast.copy_location(copy.deepcopy(addr), n)
+                return n
+        new = copy.copy(node)
+        new.body = [R().visit(copy.deepcopy(st)) for st in node.body]
+        new.target = ast.Tuple(elts=[ast.Name(id=i, ctx=ast.Store()), node.target.elts[1]], ctx=ast.Store())
+        new.iter = ast.Call(func=ast.Name(id="enumerate", ctx=ast.Load()), args=[xs], keywords=[])
+        return ast.copy_location(new, node)
+
+
 def normalise_loops(fn: ast.FunctionDef) -> ast.FunctionDef:
+    fn = _inline_iterables(fn)
+    fn = _ZipCount().visit(copy.deepcopy(fn))
+    ast.fix_missing_locations(fn)
     new = copy.copy(fn)
     new.body = list(_IndexToEnumerate(_IndexToEnumerate.sized_locals(fn)).visit(ast.Module(body=copy.deepcopy(list(fn.body)), type_ignores=[])).body)
     new.body = _rewrite_block(list(new.body))
